@@ -455,3 +455,99 @@ Proof.
     apply ce_nil.
   - vm_compute. repeat split.
 Qed.
+
+(* ---- the executable sequential specification is a run of the atomic specification ---- *)
+Lemma sget_sput s n l m : sget (sput s n l) m = if N.eqb m n then l else sget s m.
+Proof. reflexivity. Qed.
+
+Definition agrees (s : seq_state) (a : astate) : Prop := forall n, sget s n = al a n.
+
+Lemma seq_try_refines t b s n a :
+  wants_lock (apcs a t) n b -> agrees s a ->
+  exists a', aexec a [] a' /\ apcs a' t = ADone (snd (seq_try t b s n)) /\
+             agrees (fst (seq_try t b s n)) a' /\ (forall t', t' <> t -> apcs a' t' = apcs a t').
+Proof.
+  intros Hw Hag. unfold seq_try. rewrite (Hag n).
+  (* first make the entry exist *)
+  assert (Hex : exists a1, aexec a [] a1 /\ wants_lock (apcs a1 t) n b /\
+                 al a1 n = (match al a n with LNone => LFree | x => x end) /\
+                 (forall m, m <> n -> al a1 m = al a m) /\ (forall t', t' <> t -> apcs a1 t' = apcs a t')).
+  { destruct (al a n) eqn:E.
+    - exists (set_al a n LFree t (apcs a t)). split; [apply aexec_tau1; eapply a_create; eauto|].
+      cbn. rewrite !fupd_same. repeat split; auto; intros; apply fupd_other; auto.
+    - exists a. repeat split; auto. constructor.
+    - exists a. repeat split; auto. constructor. }
+  destruct Hex as (a1 & He1 & Hw1 & Hal1 & Hoth1 & Hthr1).
+  remember (match al a n with LNone => LFree | x => x end) as l eqn:El.
+  destruct (acquire t l) as [l'|] eqn:Eacq.
+  - exists (set_al a1 n l' t (ADone (acquired b))). split.
+    + eapply aexec_app with (tr1 := []) (tr2 := []); [exact He1|].
+      apply aexec_tau1. eapply a_acquire; [exact Hw1|]. now rewrite Hal1.
+    + cbn. rewrite fupd_same. repeat split; auto.
+      * intros m. rewrite sget_sput. cbn. unfold fupd. destruct (N.eqb_spec m n); [reflexivity|].
+        rewrite Hoth1 by assumption. apply Hag.
+      * intros t' Ht'. rewrite fupd_other by assumption. auto.
+  - assert (Hho : held_by_other t (al a1 n) = true).
+    { rewrite Hal1. destruct l as [| |t0 c]; cbn in Eacq.
+      - destruct (al a n); discriminate.
+      - discriminate.
+      - cbn. destruct (N.eqb t0 t); [discriminate|reflexivity]. }
+    assert (Hagree : forall a2, (forall m, al a2 m = al a1 m) -> agrees (sput s n l) a2).
+    { intros a2 H2 m. rewrite sget_sput, H2. destruct (N.eqb_spec m n) as [->|Hne]; [now rewrite Hal1|].
+      rewrite Hoth1 by assumption. apply Hag. }
+    destruct b; cbn [snd fst].
+    + exists (set_apc (set_apc a1 t (ABusy n)) t (ADone RTimeout)). split.
+      * eapply aexec_app with (tr1 := []) (tr2 := []); [exact He1|].
+        eapply aexec_app with (tr1 := []) (tr2 := []); apply aexec_tau1.
+        -- eapply a_lock_busy; eauto.
+        -- eapply a_lock_timeout. cbn. apply fupd_same.
+      * cbn. rewrite fupd_same. repeat split; auto.
+        intros t' Ht'. rewrite !fupd_other by assumption. auto.
+    + exists (set_apc a1 t (ADone (RBool false))). split.
+      * eapply aexec_app with (tr1 := []) (tr2 := []); [exact He1|].
+        apply aexec_tau1. eapply a_try_fail; eauto.
+      * cbn. rewrite fupd_same. repeat split; auto.
+        intros t' Ht'. rewrite fupd_other by assumption. auto.
+Qed.
+
+Lemma seq_relall_refines t names : forall s a k,
+  apcs a t = ARel names k -> agrees s a ->
+  exists a', aexec a [] a' /\ apcs a' t = ADone (RCount (snd (seq_relall t s names k))) /\
+             agrees (fst (seq_relall t s names k)) a' /\ (forall t', t' <> t -> apcs a' t' = apcs a t').
+Proof.
+  induction names as [|n r IH]; intros s a k Hap Hag; cbn [seq_relall].
+  - exists (set_apc a t (ADone (RCount k))). split; [apply aexec_tau1; now apply a_rel_done|].
+    cbn. rewrite fupd_same. repeat split; auto. intros t' Ht'. now apply fupd_other.
+  - rewrite (Hag n). destruct (release_all1 t (al a n)) as [l d] eqn:E.
+    pose proof (a_rel1 a t n r k Hap) as Hst. rewrite E in Hst. cbn [fst snd] in Hst.
+    destruct (IH (sput s n l) (set_al a n l t (ARel r (k + d))) (k + d)) as (a' & He & Hd & Hag' & Hoth).
+    + cbn. apply fupd_same.
+    + intros m. rewrite sget_sput. cbn. unfold fupd. destruct (N.eqb_spec m n); [reflexivity|apply Hag].
+    + exists a'. split; [eapply aexec_app with (tr1 := []) (tr2 := []); [apply aexec_tau1; exact Hst|exact He]|].
+      repeat split; auto. intros t' Ht'. rewrite Hoth by assumption. cbn. now apply fupd_other.
+Qed.
+
+Theorem seq_step_refines t o names s a :
+  apcs a t = APend o -> agrees s a ->
+  exists a', aexec a [] a' /\ apcs a' t = ADone (snd (seq_step t o names s)) /\
+             agrees (fst (seq_step t o names s)) a' /\ (forall t', t' <> t -> apcs a' t' = apcs a t').
+Proof.
+  intros Hap Hag. destruct o as [n|n|n| |n]; cbn [seq_step].
+  - apply seq_try_refines; [exact Hap|exact Hag].
+  - apply seq_try_refines; [left; exact Hap|exact Hag].
+  - rewrite (Hag n). destruct (release t (al a n)) as [l r] eqn:E.
+    pose proof (a_unlock a t n Hap) as Hst. rewrite E in Hst. cbn [fst snd] in Hst.
+    eexists. split; [apply aexec_tau1; exact Hst|]. cbn. rewrite fupd_same. repeat split; auto.
+    + intros m. rewrite sget_sput. cbn. unfold fupd. destruct (N.eqb_spec m n); [reflexivity|apply Hag].
+    + intros t' Ht'. now apply fupd_other.
+  - destruct (seq_relall t s names 0) as [s' k] eqn:E.
+    destruct (seq_relall_refines t names s (set_apc a t (ARel names 0)) 0) as (a' & He & Hd & Hag' & Hoth).
+    + cbn. apply fupd_same.
+    + exact Hag.
+    + rewrite E in *. cbn [fst snd] in *. exists a'. split.
+      * eapply aexec_app with (tr1 := []) (tr2 := []); [|exact He].
+        apply aexec_tau1. apply a_rel_start. exact Hap.
+      * repeat split; auto. intros t' Ht'. rewrite Hoth by assumption. cbn. now apply fupd_other.
+  - pose proof (a_state a t n Hap) as Hst. eexists. split; [apply aexec_tau1; exact Hst|].
+    cbn. rewrite fupd_same, (Hag n). repeat split; auto. intros t' Ht'. now apply fupd_other.
+Qed.
